@@ -133,7 +133,8 @@ SCHEMES.update({
                 sig_oracle(int_msg=True, ok_malleations=NEG3), pc=True,
                 opts=imsg, extra_faults=RER),
     'cli': Spec('C05', 4, dict(x='g2', y='g2', z='g2', a='g1', A='g1', b='g1', B='g1', c='g1', r='bn', msg='bytes'),
-                sig_oracle(int_msg=True, modn=('r',), ok_malleations=NEG5), pc=True, opts=imsg),
+                sig_oracle(int_msg=True, modn=('r',), ok_malleations=NEG5), pc=True, opts=imsg,
+                extra_faults=[('forge', 'v_moved'), ('forge', 'v_moved')]),
     'clb': Spec('C05', 4, dict(x='g2', y='g2', a='g1', b='g1', c='g1', msg='bytes'),
                 sig_oracle(int_msg=True, blocks=True), pc=True, opts=lopt,
                 extra_faults=[('z0', 'v_dbl'), ('A0', 'v_rand'), ('B0', 'flip'), ('z0', 'flip'), ('A1', 'v_neg'), ('B1', 'v_dbl'),
